@@ -264,6 +264,13 @@ class AtomGraph:
                 stochastic_allowed=False,
             )
             self.graph.add_edge(node, last_node_id, bond_type=edge_info["bond_type"])
+            # The end group is a whole token, not only the atom it is attached with.
+            # It closes the branch: none of its atoms reacts any further.
+            self._fill_static_edges(last_node_id)
+            for end_node in range(last_node_id, len(self.graph)):
+                self.graph.nodes[end_node]["termination_edges"].clear()
+                self.graph.nodes[end_node]["stochastic_edges"].clear()
+                self.graph.nodes[end_node]["transition_edges"].clear()
 
             node_data = self.graph.nodes[node]
             # Since we are fulfilling this termination, we clear the node
